@@ -30,5 +30,3 @@ func selfcheck(name string) int {
 	}
 	return rc
 }
-
-func rewriteMain(src, out string) int { return 0 }
